@@ -81,10 +81,12 @@ def dec2dms(x):
     else:
         sign = '+'
     x = abs(x)
-    d = int(math.floor(x))
-    m = int(math.floor((x - d) * 60))
-    s = float(((x - d) * 60 - m) * 60)
-    return '{0}{1:02d}:{2:02d}:{3:05.2f}'.format(sign, d, m, s)
+    # round once, to the last printed digit, so that carries propagate
+    cs = int(round(x * 360000))
+    d, cs = divmod(cs, 360000)
+    m, cs = divmod(cs, 6000)
+    s, cs = divmod(cs, 100)
+    return '{0}{1:02d}:{2:02d}:{3:02d}.{4:02d}'.format(sign, d, m, s, cs)
 
 
 def dec2hms(x):
@@ -107,12 +109,13 @@ def dec2hms(x):
     # wrap negative RA's
     if x < 0:
         x += 360
-    x /= 15.0
-    h = int(x)
-    x = (x - h) * 60
-    m = int(x)
-    s = (x - m) * 60
-    return '{0:02d}:{1:02d}:{2:05.2f}'.format(h, m, s)
+    # round once, to the last printed digit, so that carries propagate
+    cs = int(round(x * 24000))
+    h, cs = divmod(cs, 360000)
+    h %= 24
+    m, cs = divmod(cs, 6000)
+    s, cs = divmod(cs, 100)
+    return '{0:02d}:{1:02d}:{2:02d}.{3:02d}'.format(h, m, s, cs)
 
 
 # The following functions are explained at
